@@ -269,7 +269,7 @@ pub fn get_sub_entity_query(
     tab(&mut q, t);
 
     q.push_str(&format!(
-        "FROM _edge JOIN _node {0} on _edge.dest={0}.id AND _edge.label='{1}'",
+        "FROM _edge CROSS JOIN _node {0} on _edge.dest={0}.id AND _edge.label='{1}'",
         field_name, field_short
     ));
     let search = get_search_join(&entity.params, field_name, t);
